@@ -64,6 +64,7 @@ def handleLine (line : String) : String :=
   | "C14" :: "vx" :: rest => Poseidon2.handleVx rest
   | "C14" :: "sis" :: rest => SIS.handleWith true rest
   | "C14" :: "sism" :: rest => SIS.handle rest
+  | "C14" :: "sisd" :: rest => SIS.handleDirty rest
   | "C06slp" :: rest => TowerExec.handle rest
   | "C04" :: rest => MSM.handle rest
   | "C20" :: rest => Poly.handle rest
